@@ -63,7 +63,7 @@ def _run(tier, seed, t0, REPO):
             return
         import signal
 
-        class _TO(Exception):
+        class _TO(BaseException):
             pass
 
         def _alarm(*a):
